@@ -3,6 +3,7 @@ package vuego
 import (
 	"fmt"
 	"github.com/titpetric/vuego/internal/helpers"
+	"reflect"
 	"regexp"
 	"sort"
 	"sync"
@@ -57,6 +58,12 @@ func (e *ExprEvaluator) Eval(expression string, env map[string]any) (any, error)
 	result, err := expr.Run(prog, env)
 	if err != nil {
 		return nil, fmt.Errorf("eval error: %w", err)
+	}
+	// An expression that only names a registered function (`:title="title"` with no such
+	// variable) yields the function itself: that is no value - it has no string form and
+	// must not count as truthy. The name is absent, like in {{ title }}.
+	if result != nil && reflect.TypeOf(result).Kind() == reflect.Func {
+		return nil, nil
 	}
 	return result, nil
 }
